@@ -150,13 +150,13 @@ class Ctx:
         self.obs = None
         self.path_keys = set()
         self._nontrivial = False
-        self.pending = None
+        self.pending, self.pending_alts = None, None
         self.extra = {}
 
     # -- per path
     def begin(self):
         self.witness, self.obs, self._nontrivial = None, None, False
-        self.pending = None
+        self.pending, self.pending_alts = None, None
 
     def reach(self, key):
         self.c["reach:" + key] += 1
@@ -345,7 +345,7 @@ class Ctx:
         concrete violation among boundary-biased models of the path condition reached so far. Finding none proves nothing - the
         path stays abandoned / the exception stays a harness error."""
         w = self.pending if self.pending is not None else self.witness
-        if w is None or callable(w) or self.c["fallbacks"] >= 6:
+        if w is None or callable(w) or self.c["fallbacks"] >= 14:
             return False
         self.c["fallbacks"] += 1
         try:
@@ -358,14 +358,31 @@ class Ctx:
         finally:
             eng.solver.set("timeout", getattr(eng, "timeout_ms", 20000))
         import itertools
+        what = f"concrete fallback after: {reason[:120]}"
         try:
-            return self._judge_models(w, f"concrete fallback after: {reason[:120]}", itertools.chain(base, self._pattern_models(w)))
+            if self._judge_models(w, what, itertools.chain(base, self._pattern_models(w))):
+                return True
         except (EngineLimit, PathAbort):
             return False
+        if self.pending_alts is not None:           # the siblings the harness would have run next, under the plain model
+            t_end, n = time.time() + 40, 0
+            try:
+                for wa in self.pending_alts():
+                    n += 1
+                    if n > 400 or time.time() > t_end:
+                        break
+                    if self._judge_models(wa, what, base):
+                        return True
+            except (EngineLimit, PathAbort):
+                return False
+        return False
 
-    def intend(self, w):
-        """witness of what is about to be executed (used by the concrete fallback when the run itself fails)"""
+    def intend(self, w, alts=None):
+        """witness of what is about to be executed (used by the concrete fallback when the run itself fails); alts: callable giving
+        the sibling witnesses the harness would have executed next (other splittings of the same stream, ...)"""
         self.pending = w
+        if alts is not None:
+            self.pending_alts = alts
         return w
 
     def check_iff(self, got, spec, what, witness=None):
@@ -410,7 +427,7 @@ class Ctx:
             if not k and self.stop_flag is not None:
                 self.stop_flag.value = 1
         else:
-            if not relaxed and not callable(witness if witness is not None else self.witness) and self.c["fallbacks"] < 6:
+            if not relaxed and not callable(witness if witness is not None else self.witness) and self.c["fallbacks"] < 14:
                 self.c["fallbacks"] += 1
                 try:
                     if self._judge_models(w, what + " [boundary-biased model]", self._pattern_models(w)):
@@ -418,7 +435,9 @@ class Ctx:
                 except (EngineLimit, PathAbort):
                     pass
             self.unconfirmed.append({"what": what, "w": cw, "relaxed": relaxed, "error": r.get("error"), "tb": r.get("tb")})
-            if not relaxed and self.stop_flag is not None:
+            # a witness that does not reproduce is a harness error in the end (exit 3) - but a few more paths are explored first: the
+            # discrepancy is often the symptom of a change that a neighbouring path exposes in a reproducible way
+            if not relaxed and self.stop_flag is not None and sum(1 for u in self.unconfirmed if not u["relaxed"]) >= 4:
                 self.stop_flag.value = 2
 
     # -- end of path: differential replay on the pristine code
